@@ -13,12 +13,15 @@ is bounded by the length of the source (a description is strictly shorter than t
 -/
 namespace MdIt
 
+/-- the destination at `p1`: where it ends and the normalised, validated `href` — or `(p1, "")` -/
+def imageDest (ext : IExt) (s : IState) (p1 : Nat) : Nat × List Char :=
+  match parseLinkDestination ext s.src p1 s.posMax with
+  | some (dpos, dstr) => if validateLink (ext.normLink dstr) then (dpos, ext.normLink dstr) else (p1, [])
+  | none => (p1, [])
+
 /-- destination and optional title from `p1` on, as `image` does it: `(pos, href, title)` -/
 def imageDestTitle (ext : IExt) (s : IState) (maximum p1 : Nat) : Nat × List Char × List Char :=
-  let dh : Nat × List Char :=
-    match parseLinkDestination ext s.src p1 s.posMax with
-    | some (dpos, dstr) => if validateLink (ext.normLink dstr) then (dpos, ext.normLink dstr) else (p1, [])
-    | none => (p1, [])
+  let dh := imageDest ext s p1
   let p3 := skipBlanksNl s.src maximum (maximum - dh.1) dh.1
   match parseLinkTitle ext s.src p3 s.posMax with
   | some (tpos, tstr) =>
@@ -53,6 +56,20 @@ def imageEmit (lx : LExt) (parse : List Char → Except PyErr (List Tok)) (s : I
     let metaD : List (String × String) := if !label.isEmpty && lx.storeLabels then [("label", String.ofList label)] else []
     .ok (s.pushImage attrs (if ts.isEmpty then none else some ts) (String.ofList content) metaD)
 
+/-- `state.pos + 1 < state.posMax and state.src[state.pos + 1] != "["` -/
+def imageSecond (s : IState) : Except PyErr Bool :=
+  if s.pos + 1 < s.posMax then (match s.src[s.pos + 1]? with | none => .error .indexError | some c1 => .ok (c1 != '['))
+  else .ok false
+
+/-- what follows the description: the inline form, or (only when no `(` follows) one of the reference forms -/
+def imageFound (ext : IExt) (lx : LExt) (mn : Int) (inner : List IRule) (s : IState) (labelStart labelEnd maximum : Nat) :
+    Except PyErr (IState × Option (Nat × List Char × List Char × List Char)) :=
+  if labelEnd + 1 < maximum && s.src[labelEnd + 1]? == some '(' then
+    match imageInline ext s labelEnd maximum with
+    | none => .ok (s, none)
+    | some (pos, href, title) => .ok (s, some (pos, href, title, []))
+  else linkRef lx mn inner s labelStart labelEnd maximum (labelEnd + 1)
+
 /-- `image(state, silent)`; `inner` is `ruler.getRules("")` for the silent walks, `parse` is `state.md.inline.parse` -/
 def ruleImage (ext : IExt) (lx : LExt) (mn : Int) (inner : List IRule) (parse : List Char → Except PyErr (List Tok)) : IRule :=
   fun s silent =>
@@ -60,10 +77,7 @@ def ruleImage (ext : IExt) (lx : LExt) (mn : Int) (inner : List IRule) (parse : 
   | none => .error .indexError
   | some c0 =>
     if c0 != '!' then .ok (false, s) else
-    let second : Except PyErr Bool :=                       -- `state.pos + 1 < state.posMax and state.src[state.pos + 1] != "["`
-      if s.pos + 1 < s.posMax then (match s.src[s.pos + 1]? with | none => .error .indexError | some c1 => .ok (c1 != '['))
-      else .ok false
-    match second with
+    match imageSecond s with
     | .error e => .error e
     | .ok true => .ok (false, s)
     | .ok false =>
@@ -75,13 +89,7 @@ def ruleImage (ext : IExt) (lx : LExt) (mn : Int) (inner : List IRule) (parse : 
     | .ok (labelEndI, s) =>
       if labelEndI < 0 then .ok (false, s) else
       let labelEnd := labelEndI.toNat
-      let found : Except PyErr (IState × Option (Nat × List Char × List Char × List Char)) :=
-        if labelEnd + 1 < maximum && s.src[labelEnd + 1]? == some '(' then
-          match imageInline ext s labelEnd maximum with
-          | none => .ok (s, none)
-          | some (pos, href, title) => .ok (s, some (pos, href, title, []))
-        else linkRef lx mn inner s labelStart labelEnd maximum (labelEnd + 1)
-      match found with
+      match imageFound ext lx mn inner s labelStart labelEnd maximum with
       | .error e => .error e
       | .ok (s, none) => .ok (false, { s with pos := oldPos })
       | .ok (s, some (pos, href, title, label)) =>
